@@ -325,13 +325,21 @@ impl QVisitor for PathV<'_> {
                     .downcast_mut::<PreparedQuery<Q>>()
                     .unwrap();
                 if self.path == 4 {
-                    let mut b = pq.query(w);
-                    let it = b.iter();
-                    let mut body = Vec::new();
-                    let (first, n) = drain_exact(it, &mut body, self.flags, self.path);
-                    o.push(first);
-                    o.push(n);
-                    o.extend(body);
+                    let n = {
+                        let mut b = pq.query(w);
+                        let it = b.iter();
+                        let mut body = Vec::new();
+                        let (first, n) = drain_exact(it, &mut body, self.flags, self.path);
+                        o.push(first);
+                        o.push(n);
+                        o.extend(body);
+                        n
+                    };
+                    // a prepared query is a cache: it visits what the plain query visits now
+                    let plain = w.query::<Q>().iter().count() as u64;
+                    if plain != n {
+                        self.flags.push(format!("C17/C16: the prepared query visits {n} entities, the plain query {plain}"));
+                    }
                 } else if self.path == 5 {
                     let it = pq.query_mut(w);
                     let mut body = Vec::new();
@@ -345,12 +353,16 @@ impl QVisitor for PathV<'_> {
                         let mut v = pq.view_mut(w);
                         for h in self.handles {
                             let mut a = Vec::new();
+                            let inside = v.contains(*h);
                             match v.get_mut(*h) {
                                 None => a.push(0),
                                 Some(i) => {
                                     a.push(1);
                                     i.enc(&mut a);
                                 }
+                            }
+                            if inside != (a[0] == 1) {
+                                self.flags.push(format!("C08/C16: PreparedView::contains({:?}) = {inside} but get_mut finds {}", h, if a[0] == 1 { "an item" } else { "nothing" }));
                             }
                             o.extend(a.iter());
                             per_handle.push(a);
@@ -487,6 +499,9 @@ impl QVisitor for PathV<'_> {
                         }
                         a
                     }));
+                    if self.arg >= 1000 && (r.is_ok() || r2.is_ok() || r3.is_ok()) {
+                        flags.push("C05: a list of three handles naming one entity twice was accepted: two unique references to the same components".to_string());
+                    }
                     match (r, r2, r3) {
                         (Ok(a), Ok(b), Ok(c)) => {
                             if b != c {
@@ -556,6 +571,9 @@ impl QVisitor for PathV<'_> {
                         }
                         a
                     }));
+                    if self.arg >= 1000 && (r.is_ok() || r2.is_ok() || r3.is_ok()) {
+                        flags.push("C05: a list of five handles naming one entity twice was accepted: two unique references to the same components".to_string());
+                    }
                     match (r, r2, r3) {
                         (Ok(a), Ok(b), Ok(c)) => {
                             if b != c {
